@@ -45,7 +45,9 @@ from pathlib import Path
 VERIF = Path(__file__).resolve().parent.parent
 LEAN_DIR = VERIF / "lean"
 REPO = Path(os.environ.get("LENA_REPO", "/repo"))
-EVIDENCE_DIR = VERIF / "evidence"
+# evidence is only ever written from runs against /repo itself; a run against another tree (LENA_REPO, used for
+# the seeded changes) writes its evidence where it cannot be mistaken for it
+EVIDENCE_DIR = VERIF / "evidence" if REPO == Path("/repo") else VERIF / "out" / "evidence_other_tree"
 REPLAY_DIR = VERIF / "replays"
 CORPUS_DIR = VERIF / "corpus"
 KNOWN_FILE = VERIF / "known_findings.json"
@@ -587,7 +589,7 @@ def run_check(modname, argv=None):
         "wall_s": round(time.time() - t0, 2),
         "violations": len(violations),
     }
-    EVIDENCE_DIR.mkdir(exist_ok=True)
+    EVIDENCE_DIR.mkdir(parents=True, exist_ok=True)
     (EVIDENCE_DIR / f"{pid}.json").write_text(json.dumps(ev, indent=1, sort_keys=True, default=str))
 
     for l in known_lines:
